@@ -155,6 +155,8 @@ PRELUDE = r"""
 (define-fun vs_single ((v Val)) VSet (vs_add vs_empty v))
 (declare-fun vs_firstkey (VSet) Val)
 (define-fun vs_first ((s VSet)) Val (ite (= (vs_n s) 0) VNone (select (vs_rep s) (vs_firstkey s))))
+; the first element in iteration order is a member (vs_firstkey is the choice function of set iteration)
+(assert (forall ((s VSet)) (! (=> (not (= (vs_has s) ((as const (Array Val Bool)) false))) (select (vs_has s) (vs_firstkey s))) :pattern ((vs_firstkey s)))))
 ; well-formedness of a set value (holds for vs_empty and is preserved by vs_add)
 (define-fun vs_wf ((s VSet)) Bool (and (>= (vs_n s) 0)
    (= (= (vs_n s) 0) (= (vs_has s) ((as const (Array Val Bool)) false)))))
